@@ -225,21 +225,39 @@ func c11BodyLength(c *Ctx) {
 	}
 	okE, why2 := w.errPropagated(f, read)
 	c.check(okE, rule, "ParseMessage/body-read-error", w.ipos(read), "a failed/short read is an error", "a failed body read is not reported: "+why2)
-	// after the blank line: the read is reachable only through the empty-line test
-	var rl ssa.CallInstruction
-	for _, cs := range w.callsIn(f, "readLine") {
-		rl = cs.In
-	}
-	if rl != nil {
-		blank := func(a Atom) bool {
-			if a.Kind != "ltk" || a.K != 1 {
-				return false
+	// after the blank line: whichever line was read last, the body read is reachable from it only through the
+	// test that finds it empty (or through reading another line, which is judged in its turn)
+	rls := w.callsIn(f, "readLine")
+	if len(rls) > 0 {
+		good := true
+		isRL := func(in ssa.Instruction) bool {
+			for _, cs := range rls {
+				if in == ssa.Instruction(cs.In) {
+					return true
+				}
 			}
-			x, ok := lenOf(a.X)
-			return ok && isResultOf(x, rl, 0)
+			return false
 		}
-		c.check(w.requires(f, cl, blank, true) && w.requires(f, read, blank, true), rule, "ParseMessage/body-after-blank-line", w.ipos(read), "the body starts after the empty line", "the body is read without having seen the empty line that ends the header section")
-		// every non-empty line is consumed before: the loop is left only by the blank line or an error
+		for _, cs := range rls {
+			k := cs.In
+			blank := func(a Atom) bool {
+				if a.Kind != "ltk" || a.K != 1 {
+					return false
+				}
+				x, ok := lenOf(a.X)
+				return ok && isResultOf(x, k, 0)
+			}
+			keep := w.under(assumeAtom(blank, false))
+			for _, target := range []ssa.Instruction{cl, read} {
+				if canReach(at(k), keep, isInstr(target), isRL) {
+					good = false
+				}
+			}
+			if len(w.ifsTesting(f, blank)) == 0 && canReach(at(k), nil, isInstr(read), isRL) {
+				good = false
+			}
+		}
+		c.check(good, rule, "ParseMessage/body-after-blank-line", w.ipos(read), "the body starts after the empty line", "the body is read without having seen the empty line that ends the header section")
 	}
 	c.floor(rule, 5)
 }
